@@ -871,20 +871,25 @@ impl<'r> Lowerer<'r> {
 
         let unit_tmp = self.tmp(TyRef::UNIT);
         for expr in list {
+            // Evaluate the element before we make the handle that `push`
+            // consumes: the element expression can leave the function early
+            // and nothing would drop that handle then.
+            let elem = self.expr(expr);
+            let elem_ty = self.type_info.type_of(expr);
+            let elem_ty = self.type_info.convert(&elem_ty);
+            let elem = self.assign_to_var(elem, elem_ty);
+
             let list_var = Value::Clone(Place::new(tmp.clone(), ty));
             let list_var = self.assign_to_var(list_var, ty);
             self.remove_live_variable(&list_var);
 
-            let elem = self.expr(expr);
-            let elem_ty = self.type_info.type_of(expr);
-            let elem_ty = self.type_info.convert(&elem_ty);
             let elem_var = self.undropped_tmp();
             self.vars.push((elem_var.clone(), elem_ty));
 
             self.do_assign(
                 Place::new(elem_var.clone(), elem_ty),
                 elem_ty,
-                elem,
+                Value::Move(elem),
             );
 
             let func_ref =
